@@ -22,7 +22,8 @@ type memVec struct {
 		Op string `json:"op"`
 		K  int    `json:"k"`
 		ZC bool   `json:"zc"`
-		T  string `json:"t"` // decode: kind of target (struct | raw | any)
+		T  string `json:"t"`  // decode: kind of target (struct | raw | any)
+		At string `json:"at"` // decode: the value ends inside the buffered data | at its end while more is to come
 	} `json:"hist"`
 	May [][]int `json:"may"`
 }
@@ -67,15 +68,38 @@ func c10Run(c *Ctx, v memVec) {
 	fail := func(step int, api, w, g string) { c.Diverge("C10", api, w, g, "", c10Case{v, step}) }
 	inputs := map[int][]byte{}
 	expect := map[int][]byte{}
-	var stream bytes.Buffer
-	for i := 0; i < 40; i++ {
-		stream.Write(memDoc(100 + i))
-		stream.WriteString("\n  ")
-		if i%7 == 3 { // a value larger than the read quantum and the initial buffer: forces regrowth
-			stream.WriteString(`{"S":"` + strings.Repeat("z", 40000) + `"}` + "\n")
+	// the Decoder's stream arrives in pieces, each handed over together with an error of the transient kind (which ends
+	// the Decoder's attempt to fill its buffer): a piece ends behind every value that the history wants to end where
+	// the buffered data ends ("end"); values wanted "inside" share their piece with what follows
+	var ends []bool
+	for _, a := range v.Hist {
+		switch a.Op {
+		case "decode":
+			ends = append(ends, a.At == "end")
+		case "churn":
+			ends = append(ends, make([]bool, 9)...)
 		}
 	}
-	dec := json.NewDecoder(bytes.NewReader(stream.Bytes()))
+	var pieces [][]byte
+	var piece bytes.Buffer
+	for i, n := 0, 0; i < 40; i++ {
+		flush := func() {
+			if n < len(ends) && ends[n] {
+				pieces = append(pieces, append([]byte(nil), piece.Bytes()...))
+				piece.Reset()
+			}
+			n++
+		}
+		piece.Write(memDoc(100 + i))
+		piece.WriteString("\n  ")
+		flush()
+		if i%7 == 3 { // a value larger than the read quantum and the initial buffer: forces regrowth
+			piece.WriteString(`{"S":"` + strings.Repeat("z", 40000) + `"}` + "\n")
+			flush()
+		}
+	}
+	pieces = append(pieces, piece.Bytes())
+	dec := json.NewDecoder(&pieceReader{pieces: pieces, withErr: true})
 	var results []memResult
 	add := func(get func() string) { results = append(results, memResult{get, get()}) }
 	input := func(k int) []byte {
